@@ -21,6 +21,7 @@
  *   reset <utf8>             destroy and rebuild W, F, K (same process)         -> ok wait=<ms>
  *   push <hex> <cuts|->      cuts = ascending offsets 0<c<len, comma separated  -> W <ev>* | F <ev>* | K <key>* end=<res> acc=<n>/<len> [| K2 …] | T <w> <f>
  *   check <ms>               clock += ms; tickit_term_input_check_timeout_msec  -> W <ev>* | F <ev>* | K <key>* end=<res|-> acc=0/0 [| K2 …] | T <w> <f>
+ *   any operation            a fault inside libtermkey (see fault_handler)      -> CRASH exit=77 for it and the rest of the history
  * Events   k:<type>:<mod>:<strhex>   m:<type>:<button>:<line>:<col>:<mod>   r:<initial>:<mode>:<value>   q:<hex>
  * Keys     M:<ev>:<button>:<line>:<col>:<mod>  U:<mod>:<utf8hex>:<namehex>  F:<mod>:<namehex>  S:<mod>:<namehex>
  *          R:<initial>:<mode>:<value>  D:<hex>|D:!  X:<type>
@@ -146,7 +147,11 @@ typedef struct {
 } Mirror;
 
 static TickitTerm *W, *F;
-static Mirror K1 = { .loops = 0 }, K2 = { .loops = 1 };
+/* K1/K2 receive every push whole, K3/K4 receive it in the fragments F receives (their logs are not printed): between
+ * them they are in the state of W's and of F's TermKey whichever way term.c feeds it, which is what the survival
+ * probe needs */
+static Mirror K1 = { .loops = 0 }, K2 = { .loops = 1 }, K3 = { .loops = 0 }, K4 = { .loops = 1 };
+static Mirror *const mirrors[4] = { &K1, &K2, &K3, &K4 };
 static Log logW, logF;
 
 static int kmous_hook;        /* answer key_mouse = ESC [ M */
@@ -224,29 +229,35 @@ static void teardown_all(void)
 {
   if(W) tickit_term_unref(W);
   if(F) tickit_term_unref(F);
-  if(K1.tk) termkey_destroy(K1.tk);
-  if(K2.tk) termkey_destroy(K2.tk);
-  W = F = NULL; K1.tk = K2.tk = NULL;
+  for(int i = 0; i < 4; i++) {
+    if(mirrors[i]->tk) termkey_destroy(mirrors[i]->tk);
+    mirrors[i]->tk = NULL;
+  }
+  W = F = NULL;
 }
 
 static void build_all(int utf8)
 {
   teardown_all();
   if(lib_kmous < 0) probe_lib_kmous();
-  log_clear(&logW); log_clear(&logF); log_clear(&K1.log); log_clear(&K2.log);
+  log_clear(&logW); log_clear(&logF);
   W = mk_term(&logW, utf8);
   F = mk_term(&logF, utf8);
-  K1.tk = mk_termkey(utf8);
-  K2.tk = mk_termkey(utf8);
-  K1.armed = K2.armed = 0;
+  for(int i = 0; i < 4; i++) {
+    log_clear(&mirrors[i]->log);
+    mirrors[i]->tk = mk_termkey(utf8);
+    mirrors[i]->armed = 0;
+  }
 }
 
-static void engine_begin(void) { W = F = NULL; K1.tk = K2.tk = NULL; }
+static void install_fault_handler(void);
+static void engine_begin(void) { install_fault_handler(); W = F = NULL; for(int i = 0; i < 4; i++) mirrors[i]->tk = NULL; }
 static void engine_end(void)
 {
   teardown_all();
-  free(logW.s); free(logF.s); free(K1.log.s); free(K2.log.s);
-  logW = logF = K1.log = K2.log = (Log){ 0 };
+  free(logW.s); free(logF.s);
+  logW = logF = (Log){ 0 };
+  for(int i = 0; i < 4; i++) { free(mirrors[i]->log.s); mirrors[i]->log = (Log){ 0 }; }
 }
 
 static const char *resname(TermKeyResult r)
@@ -342,6 +353,80 @@ static void mirror_check(Mirror *m)
   log_add(&m->log, " end=%s acc=0/0", end);
 }
 
+/* what the four mirrors do for one operation: bytes != NULL: a push cut at `cuts`; NULL: a timeout check */
+static void mirrors_op(const unsigned char *bytes, long len, const long *cuts, int ncuts)
+{
+  if(!bytes) {
+    for(int i = 0; i < 4; i++) mirror_check(mirrors[i]);
+    return;
+  }
+  mirror_push(&K1, bytes, len);
+  mirror_push(&K2, bytes, len);
+  long at = 0;
+  for(int i = 0; i <= ncuts; i++) {
+    mirror_push(&K3, bytes + at, cuts[i] - at);
+    mirror_push(&K4, bytes + at, cuts[i] - at);
+    at = cuts[i];
+  }
+}
+
+/* libtermkey is trusted by the property, not by the harness: it segfaults or reads out of bounds on some junk no
+ * terminal sends (the generators avoid the shapes known, see gen/input20.py).  A crash *inside the tokenizer* on a
+ * stream the property does not quantify over must not count against libtickit.  Two measures:
+ *  - every operation is first performed on the mirrors alone (libtermkey and nothing of libtickit, in the states
+ *    of W's and F's TermKey), flagged by in_tokenizer_phase; only then on the terminals;
+ *  - a handler for SIGSEGV/SIGBUS/SIGABRT/SIGFPE/SIGILL looks where the fault happened: in the tokenizer-only phase,
+ *    or with the faulting instruction inside libtermkey's text, the process leaves with TK_CRASH_EXIT, and the
+ *    common scaffolding answers this and every remaining operation of the history with `CRASH exit=77`, which the
+ *    driver echoes without a verdict (counted in the evidence).  Any other fault goes to the sanitizer's handler
+ *    as before and is a CRASH observation that no model observation matches. */
+#define TK_CRASH_EXIT 77
+#include <signal.h>
+#include <ucontext.h>
+#include <dlfcn.h>
+static volatile sig_atomic_t in_tokenizer_phase;
+static struct sigaction prev_sa[NSIG];
+
+static void fault_handler(int sig, siginfo_t *info, void *ctx)
+{
+  int tokenizer = in_tokenizer_phase;
+#if defined(__x86_64__)
+  if(!tokenizer && ctx) {
+    void *pc = (void *)((ucontext_t *)ctx)->uc_mcontext.gregs[REG_RIP];
+    Dl_info dli;
+    if(dladdr(pc, &dli) && dli.dli_fname && strstr(dli.dli_fname, "libtermkey"))
+      tokenizer = 1;
+  }
+#endif
+  if(tokenizer) {
+    static const char msg[] = "HARNESS: fault inside libtermkey: history not judged\n";
+    if(write(2, msg, sizeof msg - 1) < 0) {}
+    _exit(TK_CRASH_EXIT);
+  }
+  /* not the tokenizer's: hand over to whoever was there before (the sanitizer's reporter), or die of it */
+  struct sigaction *old = &prev_sa[sig];
+  if((old->sa_flags & SA_SIGINFO) && old->sa_sigaction) { old->sa_sigaction(sig, info, ctx); return; }
+  if(!(old->sa_flags & SA_SIGINFO) && old->sa_handler != SIG_DFL && old->sa_handler != SIG_IGN) { old->sa_handler(sig); return; }
+  signal(sig, SIG_DFL);
+  raise(sig);
+}
+
+static void install_fault_handler(void)
+{
+  static int done;
+  if(done) return;
+  done = 1;
+  static const int sigs[] = { SIGSEGV, SIGBUS, SIGABRT, SIGFPE, SIGILL };
+  for(size_t i = 0; i < sizeof sigs / sizeof sigs[0]; i++) {
+    struct sigaction sa;
+    memset(&sa, 0, sizeof sa);
+    sa.sa_sigaction = fault_handler;
+    sa.sa_flags = SA_SIGINFO | SA_NODEFER;
+    sigemptyset(&sa.sa_mask);
+    sigaction(sigs[i], &sa, &prev_sa[sigs[i]]);
+  }
+}
+
 static void emit_obs(int tw, int tf)
 {
   obs("W"); log_emit(&logW);
@@ -351,7 +436,8 @@ static void emit_obs(int tw, int tf)
     obs(" | K2"); log_emit(&K2.log);
   }
   obs(" | T %d %d", tw, tf);
-  log_clear(&logW); log_clear(&logF); log_clear(&K1.log); log_clear(&K2.log);
+  log_clear(&logW); log_clear(&logF);
+  for(int i = 0; i < 4; i++) log_clear(&mirrors[i]->log);
 }
 
 static void engine_op(int argc, char **argv)
@@ -386,6 +472,11 @@ static void engine_op(int argc, char **argv)
     if(bad) { free(bytes); obs("bad-op"); return; }
     cuts[ncuts] = len;
 
+    /* the tokenizer alone first */
+    in_tokenizer_phase = 1;
+    mirrors_op(bytes, len, cuts, ncuts);
+    in_tokenizer_phase = 0;
+
     /* W: whole */
     tickit_term_input_push_bytes(W, (const char *)bytes, len);
     /* F: fragments */
@@ -394,8 +485,6 @@ static void engine_op(int argc, char **argv)
       tickit_term_input_push_bytes(F, (const char *)bytes + at, cuts[i] - at);
       at = cuts[i];
     }
-    mirror_push(&K1, bytes, len);
-    mirror_push(&K2, bytes, len);
     /* frozen clock: these calls only read the armed deadline (remaining > 0, or -1) */
     int tw = tickit_term_input_check_timeout_msec(W);
     int tf = tickit_term_input_check_timeout_msec(F);
@@ -408,10 +497,11 @@ static void engine_op(int argc, char **argv)
     long ms = atol(argv[1]);
     if(ms < 0 || ms > 100000) { obs("bad-op"); return; }
     clk_us += ms * 1000LL;
+    in_tokenizer_phase = 1;
+    mirrors_op(NULL, 0, NULL, 0);
+    in_tokenizer_phase = 0;
     int tw = tickit_term_input_check_timeout_msec(W);
     int tf = tickit_term_input_check_timeout_msec(F);
-    mirror_check(&K1);
-    mirror_check(&K2);
     emit_obs(tw, tf);
     return;
   }
